@@ -345,7 +345,7 @@ def call_method(fr, recv: Any, name: str, args: list, kwargs: dict, node: ast.AS
         if name in ("lstrip", "rstrip"):
             if s.is_concrete():
                 return getattr(s.concrete(), name)(*[_c(a) for a in args])
-            raise AnalysisError(f"{name} on symbolic string")
+            return pai._simplify(s.strip(_c(args[0]) if args else None, left=name == "lstrip", right=name == "rstrip"))
         if name in ("startswith", "endswith"):
             (p,) = args
             if isinstance(p, tuple):
